@@ -99,11 +99,14 @@ class CCodeMapper(SimplifyingSortingStringifyMapper):
 
     def map_product(self, expr, enclosing_prec):
         from pymbolic.mapper.stringifier import PREC_PRODUCT
+        from pymbolic.primitives import Quotient, Remainder
         return self.parenthesize_if_needed(
                 # Spaces prevent '**z' (times dereference z), which
                 # is hard to read.
 
-                self.join_rec(" * ", expr.children, PREC_PRODUCT),
+                # a*(b % c) is not a*b % c, see StringifyMapper.map_product
+                self.join_rec(" * ", expr.children, PREC_PRODUCT,
+                    force_parens_around=(Quotient, Remainder)),
                 enclosing_prec, PREC_PRODUCT)
 
     def map_constant(self, x, enclosing_prec):
@@ -134,7 +137,10 @@ class CCodeMapper(SimplifyingSortingStringifyMapper):
             if is_zero(expr.exponent):
                 return "1"
             elif is_zero(expr.exponent - 1):
-                return self.rec(expr.base, enclosing_prec)
+                # the parents force parentheses by operand type, which this
+                # shortcut hides: a*(b % c)**1 is not a*b % c
+                from pymbolic.mapper.stringifier import PREC_POWER
+                return self.rec(expr.base, PREC_POWER)
             elif is_zero(expr.exponent - 2):
                 return self.rec(expr.base*expr.base, enclosing_prec)
 
